@@ -44,6 +44,13 @@ impl WalArchiver {
         }
     }
 
+    /// Read WAL files from `wal_dir` instead of the configured WAL directory
+    /// (archive directory and compression settings are kept).
+    pub fn with_wal_dir(mut self, wal_dir: PathBuf) -> Self {
+        self.wal_dir = wal_dir;
+        self
+    }
+
     /// Archive a single WAL log file
     pub fn archive_log(&self, log_id: u64) -> std::io::Result<PathBuf> {
         let wal_path = self.wal_dir.join(format!("wal-{:05}.log", log_id));
